@@ -235,8 +235,13 @@ def run_check(spec, tier='quick', seed=0, jobs=None, keep=False, verbose=True):
         pkgs = R.build_overlay(overlay, spec.HARNESS_FILES, extra)
         load_pkgs = sorted(set(pkgs) | set(getattr(spec, 'EXTRA_PKGS', [])))
         jpath = os.path.join(work, 'ssa.json')
+        inits = [x for x in getattr(spec, 'INITS', '').split(',') if x]
+        for p in pkgs:
+            ip = MODPATH if p == '.' else MODPATH + '/' + p
+            if ip not in inits:
+                inits.append(ip)
         gs, gmsg = R.run_gossa(overlay, load_pkgs, getattr(spec, 'ROOTS', ['verifHarness_']), jpath,
-                               allow=getattr(spec, 'ALLOW', ''), inits=getattr(spec, 'INITS', ''),
+                               allow=getattr(spec, 'ALLOW', ''), inits=','.join(inits),
                                mtypes=getattr(spec, 'MTYPES', ''))
         log('[%s] %s (%.1fs)' % (pid, gmsg, gs))
         base_opts = dict(getattr(spec, 'OPTIONS', {}))
